@@ -85,8 +85,8 @@ CLAIMS = {
          "literal, register and unprivileged forms, ARM A1/A2 and Thumb T1-T4) proved equal, leaf by leaf over the whole machine state and "
          "the abstract memory (address, size, access kind, privilege, data of every access; write-back; loads to PC with interworking; "
          "frame), to the ARM ARM decode+operation pseudocode for all instruction words of the class and all operand values with "
-         "wrap-around modulo 2^32; plus the abort clause (no register loaded or written back; LDRD destinations UNKNOWN). Exclusives "
-         "and PLD have decode-only rows (operation: safety obligations only).", "DESIGN.md 10 C02, 14"),
+         "wrap-around modulo 2^32; plus the abort clause (no register loaded or written back; LDRD destinations UNKNOWN). LDREX/STREX{,B,H,D} functionally with the "
+         "monitors' answers as oracles of the unit (the monitor state is outside the machine state); PLD has decode-only rows.", "DESIGN.md 10 C02, 14"),
  'C03': ("LDM/STM in four addressing modes, PUSH/POP, LDM/STM (user registers), LDM (exception return): the execute() of each of the 15 "
          "abstract classes verified with its register loop cut (head: start address and ascending order; inductive step for an arbitrary "
          "register index, address, memory and register file; tail: PC slot, write-back, UNKNOWN cases, exception return), so for all 2^16 "
@@ -100,7 +100,7 @@ CLAIMS = {
          "extraction through the functional equality (post / decode.fields) and UNDEFINED rows never execute (post.unpred); decode "
          "reads nothing but the word, ITSTATE and C (frame.own + the spec's own dependence). The table holds a row for every one of the 602 concrete "
          "classes (data-processing, branches, load/store single, dual, multiple, unprivileged, multiply/SIMD/saturating/bit-field, "
-         "MRS/MSR/CPS/SETEND/exception return/hints, TBB/TBH functionally; SVC/SMC/UDF/BKPT/IT/barriers/PLD/exclusives as decode-only "
+         "MRS/MSR/CPS/SETEND/exception return/hints, TBB/TBH functionally; exclusives functionally; SVC/SMC/UDF/BKPT/IT/barriers/PLD as decode-only "
          "rows; coprocessor CDP/MCR/MRC/MCRR/MRRC/LDC/STC, Thumb PLD and ENTERX/LEAVEX likewise decode-only). Decode-only classes "
          "are covered by the spec-free obligations only.", "DESIGN.md 14.8"),
  'C07': ("As C06 for Thumb: 58 16-bit cubes (bits 15:10) and 192 32-bit cubes (bits 31:21), inside and outside IT blocks (ITSTATE "
